@@ -52,8 +52,12 @@ Theorem C10_hide_last :
 Proof. reflexivity. Qed.
 Theorem C10_exception_catch_exact :
   forall f c args, snd (call_doc (FExcCatch f c) args) =
-    match snd (call_doc f args) with RThrow => RInt (Z.of_N c) | r => r end.
+    match snd (call_doc f args) with RThrow => catcher_result c | r => r end.
 Proof. exact exception_catch_exact. Qed.
+(* a catcher that does not handle the exception lets it reach the caller (C08: the exception propagates) *)
+Theorem C10_exception_catch_rethrow_propagates :
+  forall f c args, (5000 <= c)%N -> snd (call_doc f args) = RThrow -> snd (call_doc (FExcCatch f c) args) = RThrow.
+Proof. exact exception_catch_rethrow. Qed.
 Theorem C10_bind_return_returns_bound :
   forall f b args, snd (call_doc f args) <> RThrow -> snd (call_doc (FBindReturn f b) args) = RInt (bound_result b).
 Proof. exact bind_return_returns_bound. Qed.
